@@ -23,7 +23,10 @@ Theorem C19_roundtrip : forall E v, representable E v = true ->
 Proof. exact roundtrip_json. Qed.
 
 (* a system (an object with to_dict): from_dict of its dictionary, also via JSON text, gives the
-   same object, which therefore serialises identically *)
+   same object, which therefore serialises identically.  That an object of a votelib class IS its
+   parameter record (the constructor stores every parameter verbatim, to_dict reads exactly them back)
+   is read from the source per class and proved in Props/GenTie_Signatures.v (C19_class_roundtrip,
+   class_table_ok) - kept out of this file so that an unreadable source falls back to the tested premise *)
 Theorem C19_system_roundtrip : forall E c ps, representable E (PObj c ps) = true ->
   exists j, serialize_value (PObj c ps) = SOk j /\
             from_dict E j = DOk (PObj c ps) /\ from_dict E (json_rt j) = DOk (PObj c ps).
